@@ -38,6 +38,18 @@ class _Base:
         except Exception as e:  # noqa: BLE001
             return None, e
 
+    def reset_accessory(self):
+        """The accessory is factory-reset: a new long-term key, nobody paired, the same address and advertisement.  The discovery object the
+        application holds stays the same."""
+        self.n_resets = getattr(self, "n_resets", 0) + 1
+        self._drop_links()  # (a reset accessory reboots: whatever link was up is gone)
+        self._new_accessory(self.seed + 100 * self.n_resets)
+        self.finish_fn = None
+        self.loop.run_until_idle()
+
+    def _drop_links(self):
+        pass
+
     def start(self):
         fn, exc = self._call(self.disc.async_start_pairing("alias"))
         if exc is None:
@@ -62,9 +74,7 @@ class IpSetupRig(_Base):
             cm.__enter__()
         from aiohomekit.controller.ip.discovery import IpDiscovery
 
-        self.acc = ipacc.Accessory(seed)
-        self.acc.handler = std_handler()
-        self.acc.setup_log = []
+        self._new_accessory(seed)
         self.net.auto = lambda att: ("ok", att["hosts"][0])
         orig = self.net.accept
         rig = self
@@ -87,6 +97,15 @@ class IpSetupRig(_Base):
         self.net.accept = accept
         self.controller = StubController()
         self.disc = IpDiscovery(self.controller, mk_description([host]))
+
+    def _drop_links(self):
+        for c in self.net.open_conns():
+            c.peer_close()
+
+    def _new_accessory(self, seed):
+        self.acc = ipacc.Accessory(seed)
+        self.acc.handler = std_handler()
+        self.acc.setup_log = []
 
     @property
     def log(self):
@@ -130,7 +149,7 @@ class BleSetupRig(_Base):
         self._cms = [pairdrv.pinned_keys(f"setuprig|{seed}"), pairdrv.pinned_srp(int.from_bytes(b"setuprig-srp-a!!", "big") + seed)]
         for cm in self._cms:
             cm.__enter__()
-        self.acc = bleacc.BleAccessory(seed)
+        self._new_accessory(seed)
         self.clients, self.links_closed, self.notify, self.gated, self.waiting = [], 0, {}, False, []
         rig = self
 
@@ -162,6 +181,14 @@ class BleSetupRig(_Base):
     async def gate(self, kind, iid, data):
         await asyncio.sleep(0)
         return None
+
+    def _drop_links(self):
+        for c in self.clients:
+            if c.is_connected:
+                c.peer_disconnect()
+
+    def _new_accessory(self, seed):
+        self.acc = bleacc.BleAccessory(seed)
 
     @property
     def log(self):
@@ -201,7 +228,7 @@ class CoapSetupRig(_Base):
         self._cms = [pairdrv.pinned_keys(f"setuprig|{seed}"), pairdrv.pinned_srp(int.from_bytes(b"setuprig-srp-a!!", "big") + seed)]
         for cm in self._cms:
             cm.__enter__()
-        self.acc = coapacc.CoapAccessory(seed)
+        self._new_accessory(seed)
         self.contexts = []
         rig = self
 
@@ -244,6 +271,9 @@ class CoapSetupRig(_Base):
     @property
     def controllers(self):
         return self.acc.controllers
+
+    def _new_accessory(self, seed):
+        self.acc = coapacc.CoapAccessory(seed)
 
     def open_links(self):
         return sum(1 for c in self.contexts if not c.shut)
